@@ -89,7 +89,7 @@ def a2(prog, ctx, setters):
     lp = [x for x in fk.walk() if x.k == "ForStmt"]
     if len(lp) != 1:
         raise Inconclusive("find_key: lookup loop not recognised")
-    hb = [b for b in cfg.blocks.values() if b.term is lp[0]][0].id
+    hb = cfg.loop_header(lp[0])
     ok1, c1 = cfg.all_paths_cut(hb, lambda lit, b, i: lit is not None and lit.kind == "truth" and lit.atom == "key" and lit.pol)
     ok2, c2 = cfg.all_paths_cut(hb, lambda lit, b, i: lit is not None and lit.pol and (
         (lit.kind == "truth" and lit.atom in ("*key", "key[0]", "strlen(key)")) or (lit.kind == "lt" and "strlen(key)" in lit.atom)))
@@ -191,7 +191,7 @@ def a4(prog, ctx):
     else:
         ctx.inconclusive("A4", "find_key scans [0,length) ascending", lp.where, sh.describe())
     # match: group and key both equal, first match returns
-    hb = [b for b in cfg.blocks.values() if b.term is lp][0].id
+    hb = cfg.loop_header(lp)
     succ = [r for r in f.returns() if query.returned_constant(r) in ("ECONF_SUCCESS", 0)]
     if not succ:
         ctx.fail("A4", "find_key returns the first match", f.where, "no success return", key="findkey-first")
@@ -336,7 +336,7 @@ def a7(prog, ctx):
         srcok = render(st.children[1]) == "strdup(kf->groups[%s])" % sh.var
         okm, cutm = cfg.all_paths_cut(cfg.block_of(st), lambda lit, b, i: lit is not None and lit.kind == "truth" and lit.pol and lit.node.k == "CallExpr"
                                       and lit.node.j.get("callee") == "strcmp" and any(a.string_value() == MARKER for a in lit.node.call_args()))
-        hb = [b for b in cfg.blocks.values() if b.term is lp[0]][0].id
+        hb = cfg.loop_header(lp[0])
         other_conds = [(b, i) for (b, i, s) in cfg.edges() if b in cfg.natural_loop(hb) and b != hb and cfg.edge_lit(b, i) is not None
                        and (b, i) not in cutm and not cfg.edge_lit(b, i).atom.startswith("*groups") and "strcmp" not in cfg.edge_lit(b, i).atom
                        and "(*groups)[" not in cfg.edge_lit(b, i).atom]
